@@ -56,8 +56,11 @@ trait CommonThreadInfo {
 
         let status_path = path::PathBuf::from(format!("/proc/{}/status", tid));
         let status_file = std::fs::File::open(status_path)?;
-        for line in io::BufReader::new(status_file).lines() {
+        // The `Name:` line carries the thread name verbatim, which need not be valid UTF-8: read
+        // raw lines and convert lossily instead of failing the whole dump on such a thread.
+        for line in io::BufReader::new(status_file).split(b'\n') {
             let l = line?;
+            let l = String::from_utf8_lossy(&l).into_owned();
             let start = l
                 .get(0..6)
                 .ok_or_else(|| ThreadInfoError::InvalidProcStatusFile(tid, l.clone()))?;
